@@ -108,6 +108,12 @@ func (v *vc) execCall(fr *frame, st *state, instr ssa.Instruction, c *ssa.CallCo
 	}
 	args := make([]string, len(c.Args))
 	for i, a := range c.Args {
+		if _, isAddr := fr.addrs[a]; isAddr {
+			if _, has := fr.vals[a]; !has {
+				args[i] = "interior_ptr"
+				continue
+			}
+		}
 		args[i] = v.val(fr, st, a)
 	}
 	sig := c.Signature()
@@ -119,7 +125,7 @@ func (v *vc) execCall(fr *frame, st *state, instr ssa.Instruction, c *ssa.CallCo
 		if v.intrinsic(fr, st, instr, name, c, append([]string{recv}, args...), res) {
 			return
 		}
-		if fc := v.eng.contracts.funcs[name]; fc != nil {
+		if fc := v.eng.contracts.funcs["."+name]; fc != nil {
 			v.contractCall(fr, st, instr, fc, nil, c, append([]string{recv}, args...), res, site)
 			return
 		}
@@ -197,6 +203,15 @@ func (v *vc) inlineCall(fr *frame, st *state, callee *ssa.Function, clo *ssa.Mak
 	for i, p := range callee.Params {
 		if i < len(args) {
 			nf.vals[p] = args[i]
+		}
+		if i < len(c.Args) {
+			// interior pointers (address of a nested struct field / local) are passed as addresses
+			if a, ok := fr.addrs[c.Args[i]]; ok {
+				if _, isVal := fr.vals[c.Args[i]]; !isVal || args[i] == "interior_ptr" {
+					nf.addrs[p] = a
+					delete(nf.vals, p)
+				}
+			}
 		}
 	}
 	if clo != nil {
@@ -649,7 +664,7 @@ func (v *vc) callMods(fr *frame, c *ssa.CallCommon, m *modSet, depth int) {
 	var fc *funcContract
 	var callee *ssa.Function
 	if c.IsInvoke() {
-		fc = v.eng.contracts.funcs[name]
+		fc = v.eng.contracts.funcs["."+name]
 	} else {
 		switch f := c.Value.(type) {
 		case *ssa.Function:
